@@ -35,7 +35,7 @@ DISPATCH = ['', AVX512, AVX512 + ' AVX2 FMA3']
 RULE = ('runs generated from the seed in groups of three (same choice sequence, NumPy dispatch setting none-disabled / AVX-512 disabled / AVX-512+AVX2+FMA3 disabled): '
         'a database of 3-200 references built at signature level with identical, nested and equidistant members, 1-4 queries, then 4-10 executions of query() with drawn '
         'report_closest 1..n+3, chunk size, OpenMP team size and hand-out; a tenth of the runs also go through the CLI (-f json and -f csv). A case is '
-        '(tie structure of the distance row, N, dispatch setting, team size, chunk regime); non-trivial = the row has a tie inside or at the edge of the reported prefix.')
+        '(tie structure of the distance row, N, dispatch setting, team size, chunk regime); non-trivial = the row has a tie inside or at the edge of the reported prefix. Run groups of five share a choice sequence (three dispatch settings, NPY_PROMOTION_STATE=weak, PYTHONOPTIMIZE=1). Further drawn dimensions: one database object reused across executions with in-memory threshold edits, one QueryParams object reused across a small and the main database, references at distance exactly j/10.')
 STATES_MEASURE = 'distinct (dispatch setting, tie pattern of the reported prefix) pairs'
 
 REAL = ['gambit.query.query / get_result_item', 'gambit.classify', 'jaccarddist_matrix + compiled kernel', 'numpy argsort/argmin under the dispatch setting of the interpreter',
